@@ -13,6 +13,7 @@ import (
 	"crypto/x509"
 	"errors"
 	"fmt"
+	"io"
 	"net"
 	"net/http"
 	"os"
@@ -60,6 +61,7 @@ func (hp *HTTPProxy) errorResponse(req *http.Request, err error) *http.Response 
 		handleContextCancelationError,
 		handleStatusText,
 		handleTimeoutError,
+		handleEOFError,
 	}
 
 	var (
@@ -278,6 +280,18 @@ func handleTimeoutError(req *http.Request, err error) (code int, msg, label stri
 		code = http.StatusGatewayTimeout
 		msg = fmt.Sprintf("timed out connecting to remote host %q", req.Host)
 		label = "timeout"
+	}
+
+	return
+}
+
+// handleEOFError handles the remote host closing the connection before it sent a complete reply,
+// e.g. during the TLS handshake or instead of a response.
+func handleEOFError(req *http.Request, err error) (code int, msg, label string) {
+	if errors.Is(err, io.EOF) || errors.Is(err, io.ErrUnexpectedEOF) {
+		code = http.StatusBadGateway
+		msg = fmt.Sprintf("connection closed by remote host %q", req.Host)
+		label = "unexpected_eof"
 	}
 
 	return
